@@ -274,6 +274,52 @@ let () = register "bpm" (fun args ->
       (int_of_z (sed t p)) (int_of_z (sed t (firstn (nat_of_int 1024) p))) (int_of_z (sed t (firstn (nat_of_int 63) p))) (int_of_z (sed t (firstn (nat_of_int 255) p)))
   | _ -> "BADARGS")
 
+(* ---- formats: readers and writers ------------------------------------------------------------------- *)
+let read_file_bytes path =
+  let ic = open_in_bin path in
+  let n = in_channel_length ic in
+  let b = really_input_string ic n in
+  close_in ic;
+  List.init n (fun i -> let v = Char.code b.[i] in z_of_int (if v >= 128 then v - 256 else v))
+
+let string_of_bytes (l : z list) = String.concat "" (List.map (fun z -> String.make 1 (Char.chr ((int_of_z z) land 255))) l)
+let hexn l = if l = [] then "-" else hexstr_of_bytes l
+
+let () = register "readfiles" (fun args ->
+  match read_inputs (List.map read_file_bytes args) with
+  | RErr -> "ERR"
+  | RNone -> "NONE"
+  | ROk m ->
+    Printf.sprintf "OK biotype=%d aligned=%d n=%d recs=%s" (int_of_z m.i_biotype) (int_of_z m.i_aligned) (List.length m.i_recs)
+      (String.concat ";" (List.map (fun r -> Printf.sprintf "%s:%s:%s" (hexn r.rr_name) (hexn r.rr_res)
+                                       (String.concat "," (List.map (fun g -> string_of_int (int_of_nat g)) r.rr_gaps))) m.i_recs)))
+
+(* rewrite <infile> <format> <outfile> <basename hex> <version hex>: model output written to <outfile> *)
+let () = register "rewrite" (fun args ->
+  match args with
+  | [infile; fmt; outfile; base; ver] ->
+    (match read_inputs [read_file_bytes infile] with
+     | ROk m ->
+       if int_of_z m.i_aligned <> 2 then Printf.sprintf "FAIL not-an-alignment status=%d" (int_of_z m.i_aligned)
+       else
+         let rows = rows_of m.i_recs in
+         let alnlen = match rows with (_, r) :: _ -> List.length r | [] -> 0 in
+         let fmtb = List.map (fun c -> z_of_int (Char.code c)) (List.init (String.length fmt) (String.get fmt)) in
+         (match parse_format (Some fmtb) with
+          | None -> "FAIL write"
+          | Some f ->
+            let f = int_of_z f in
+            let protein = (int_of_z m.i_biotype = 0) in
+            let date = List.map (fun c -> z_of_int (Char.code c)) (List.init 4 (String.get "DATE")) in
+            let out = if f = 1 then write_fasta rows
+              else if f = 2 then write_msf (bytes_of_hexstr base) date protein (nat_of_int alnlen) rows
+              else write_clu (bytes_of_hexstr ver) (nat_of_int alnlen) rows in
+            let oc = open_out_bin outfile in
+            output_string oc (string_of_bytes out); close_out oc;
+            Printf.sprintf "OK biotype=%d alnlen=%d" (int_of_z m.i_biotype) alnlen)
+     | _ -> "FAIL read")
+  | _ -> "BADARGS")
+
 let main () =
   try
     while true do
